@@ -580,14 +580,15 @@ type job struct {
 	hist    []evSpec
 	scripts [][]evSpec
 	yields  []bool
-	wins    []window // gated part (c06_gate_test.go)
+	wins    []window  // gated part (c06_gate_test.go)
+	mut     []mutStep // uuid-change part (c06_mut_test.go)
 }
 
 func TestC06(t *testing.T) {
 	r := vf.Start(t, "C06", vf.FaultEnumeration)
 	defer r.Finish()
-	r.SetRule("Histories over the alphabet {Est(l), Lost(l)} on 3 links (4 in part of the concurrent runs) in 6 (+3) uuid/peer sharing patterns (distinct; same peer; same uuid + same peer; same uuid + other peer; three links on one uuid; a self link on a shared uuid). Sequential part: every history of length L (quick 4, thorough 5; shorter ones are their prefixes) for every pattern, each event awaited, plus PRNG histories of length 6-8. Concurrent part: PRNG scripts from 2-4 goroutines plus a concurrent GetPeerLinks reader; the applied order is taken from the hook events. A case is non-trivial when the reference table changed at least twice during the history (the clean-up losses afterwards not counted); distinct = distinct (pattern, history[, observed hook order]). Oracle: reference table replayed in hook order; after EVERY event the copy of links/linksByPeerID taken under the controller lock must equal it (keys, partition by remote peer, same entry objects, no nil/duplicate entries); GetPeerLinks equals it (exactly when nothing is in flight, in some state of the call interval when concurrent); at settled points the values of EstablishLinkWithPeer directives equal it and every link the reference removed (lost / replaced / self) has had Close called. 'present => not closed' is never demanded. Gated part (quick 500 / thorough 10000 PRNG histories of 1-3 windows over the same patterns): a window is 0-2 awaited events, then a trigger event (Est, 1 in 6 Lost, of a non-self link) with a harness gate armed on the directive of that link's peer, so that the next value-added callback (1 in 3 and for Lost triggers: the next callback of any kind) parks inside the resolver's emit call (no lock of the controller is held there); when the reference table of that peer changed, the harness waits for the callback to arrive (condition, not time), then delivers 1-3 further events, 7 in 10 on links sharing the peer or uuid of the trigger link, 1 in 4 the loss of the very link being reported, each awaited at its hook and judged like a sequential event, WHILE the callback is held, then opens the gate and delivers nothing more: the system must settle with the directive values equal to the reference table (a resolver that does not notice an event applied while it was emitting stays wrong for good: values:lost-link-still-reported / established-link-not-reported). quic part: 14 scripted scenarios with real pconn/quic transports on an in-memory switch (close, reconnect with the same key from the same address once / twice / on a second address / beside another peer / followed by close and connect / racing another peer's close, another key from the same address (usurp), two addresses, usurp and back, close racing a reconnect, silent kill), each run without and with the harness holding EstablishLinkWithPeer(L, peer) references (only with them a replacement link survives the late loss of the link it replaced: unreferenced, the controller closes all links of a peer when one is lost); after every step GetPeerLinks must report exactly the sessions that are alive as seen by the harness and the remote ends; a closed link still reported after the transport finished processing its loss with no handler call pending is a violation. The quic transport's own table is judged in every polling iteration after every step, without settling: for every address, the local end l of the newest session the script connected from it, if not closed (context alive before and after the lookups), must be what Transport.LookupLinkWithAddr returns and LookupLinkWithPeer must return a link of l's peer; a link whose loss the transport finished processing (hook) must not be returned by either lookup.")
-	r.Assume("a fake link never reports its own loss; its local peer is the transport's peer; uuids are stable")
+	r.SetRule("Histories over the alphabet {Est(l), Lost(l)} on 3 links (4 in part of the concurrent runs) in 6 (+3) uuid/peer sharing patterns (distinct; same peer; same uuid + same peer; same uuid + other peer; three links on one uuid; a self link on a shared uuid). Sequential part: every history of length L (quick 4, thorough 5; shorter ones are their prefixes) for every pattern, each event awaited, plus PRNG histories of length 6-8. Concurrent part: PRNG scripts from 2-4 goroutines plus a concurrent GetPeerLinks reader; the applied order is taken from the hook events. A case is non-trivial when the reference table changed at least twice during the history (the clean-up losses afterwards not counted); distinct = distinct (pattern, history[, observed hook order]). Oracle: reference table replayed in hook order; after EVERY event the copy of links/linksByPeerID taken under the controller lock must equal it (keys, partition by remote peer, same entry objects, no nil/duplicate entries); GetPeerLinks equals it (exactly when nothing is in flight, in some state of the call interval when concurrent); at settled points the values of EstablishLinkWithPeer directives equal it and every link the reference removed (lost / replaced / self) has had Close called. 'present => not closed' is never demanded. Gated part (quick 500 / thorough 10000 PRNG histories of 1-3 windows over the same patterns): a window is 0-2 awaited events, then a trigger event (Est, 1 in 6 Lost, of a non-self link) with a harness gate armed on the directive of that link's peer, so that the next value-added callback (1 in 3 and for Lost triggers: the next callback of any kind) parks inside the resolver's emit call (no lock of the controller is held there); when the reference table of that peer changed, the harness waits for the callback to arrive (condition, not time), then delivers 1-3 further events, 7 in 10 on links sharing the peer or uuid of the trigger link, 1 in 4 the loss of the very link being reported, each awaited at its hook and judged like a sequential event, WHILE the callback is held, then opens the gate and delivers nothing more: the system must settle with the directive values equal to the reference table (a resolver that does not notice an event applied while it was emitting stays wrong for good: values:lost-link-still-reported / established-link-not-reported). uuid-change part (quick 400 / thorough 8000 PRNG histories, sequential, same oracle): one or two non-self links of the pattern change the value GetUUID() reports to a fresh one (never held by another link) at a PRNG point of the history (3 in 4 right after being established, else in whatever state the prefix left them), 0-2 events on other links follow, then the changed link is reported lost (the loss must find it although it is filed under the uuid it was established with), then 0-4 more events: 1 in 2 first a link re-using the OLD uuid, late duplicate loss reports of the changed link; never delivered: Est of a changed link, Est of another link with the old uuid between the change and the loss (the property does not say which identifier such a link holds for the replacement clause). quic part: 14 scripted scenarios with real pconn/quic transports on an in-memory switch (close, reconnect with the same key from the same address once / twice / on a second address / beside another peer / followed by close and connect / racing another peer's close, another key from the same address (usurp), two addresses, usurp and back, close racing a reconnect, silent kill), each run without and with the harness holding EstablishLinkWithPeer(L, peer) references (only with them a replacement link survives the late loss of the link it replaced: unreferenced, the controller closes all links of a peer when one is lost); after every step GetPeerLinks must report exactly the sessions that are alive as seen by the harness and the remote ends; a closed link still reported after the transport finished processing its loss with no handler call pending is a violation. The quic transport's own table is judged in every polling iteration after every step, without settling: for every address, the local end l of the newest session the script connected from it, if not closed (context alive before and after the lookups), must be what Transport.LookupLinkWithAddr returns and LookupLinkWithPeer must return a link of l's peer; a link whose loss the transport finished processing (hook) must not be returned by either lookup.")
+	r.Assume("a fake link never reports its own loss; its local peer is the transport's peer; uuids are stable except in the uuid-change part, where the reference table keeps a link under the uuid it was established with and identifies it by object identity")
 	r.Assume("linearisation order = order of the tc.established / tc.lost hook events (emitted as the last action under Controller.bcast); a handler call that HoldLockMaybeAsync applies later than a subsequent call of the same goroutine is judged in applied order (counted as program_order_inversions_observed, not flagged)")
 	r.Assume("stuck-state verdicts (value/close obligations) are taken only when every goroutine with bifrost/controllerbus frames is parked and no other case is running; timers of >= 10 s (directive hold-open) are outside every case's lifetime")
 
@@ -658,8 +659,19 @@ func TestC06(t *testing.T) {
 		jobs = append(jobs, job{p: p, wins: ws})
 	}
 	r.Extra("gated_runs", len(jobs)-nConc)
-	if os.Getenv("VERIF_C06_ONLY") == "gated" { // debugging aid only
-		jobs = jobs[nConc:]
+	nGated := len(jobs)
+	// uuid-change: links whose GetUUID() changes while established (c06_mut_test.go)
+	mrng := r.Rand("c06-uuid-change")
+	for i, m := 0, r.N(400, 8000); i < m; i++ {
+		p, h := genMut(mrng)
+		jobs = append(jobs, job{p: p, mut: h})
+	}
+	r.Extra("uuid_change_runs", len(jobs)-nGated)
+	switch os.Getenv("VERIF_C06_ONLY") { // debugging aid only
+	case "gated":
+		jobs = jobs[nConc:nGated]
+	case "mut":
+		jobs = jobs[nGated:]
 	}
 	r.Extra("sequential_exhaustive_histories", nExh)
 	r.Extra("sequential_exhaustive_length", L)
@@ -688,7 +700,9 @@ func TestC06(t *testing.T) {
 				if r.Violations() > 40 {
 					continue
 				}
-				if j.wins != nil {
+				if j.mut != nil {
+					ru.runMut(j.p, j.mut)
+				} else if j.wins != nil {
 					ru.runGated(j.p, j.wins)
 				} else if j.scripts != nil {
 					ru.runConc(j.p, j.scripts, j.yields)
